@@ -68,6 +68,23 @@ CHECKS["C12"] = dict(
   text="Design check: for every site of the site table and every permutation of 4 keys the emitted sequence is schedule independent (it is not for the pinned tree's three ranged sites, cfg v0). Code: a map-fat spec with >= 4 entries in every map-typed construct, the kitchen and carrier specs and a seeded sample of matrix cells are each generated 24 (thorough 96) times across separate processes; every run of one input must give the same result (or the same error text) and identical sha256 per file. Schedules of Go's map iteration are sampled, not enumerated (exploration).",
   note="With k >= 4 entries and a first-key-wins or whole-order site, a pair of runs differs with probability >= 3/4, so 24 runs miss an influencing site with probability <= 4^-23. The site table is a model; unlisted ranged sites would still be caught by the hash comparison if the corpus exercises them.")
 
+CODEC_NOTE = "Values are compared by projection (nil = empty collections, times as instants). JSON leaves are tokenised by strconv / time.Parse (trusted). Struct fields are bound to properties by normalised name. Schemas whose generated code does not build are excluded by the pre-flight and counted (C01 owns them). One open finding (named date-time component) carries a TLA+ selector."
+CHECKS["C06"] = dict(
+  level="model_checking", design="§4 C06, spec/Codec.tla (VEq, NoDupDeep, writer machine), spec/MC_Codec.tla, spec/Trace_Codec.tla",
+  technique="TLA+ model of the generated object writer's comma protocol checked by TLC (MC_Codec); TLC-enumerated schema universe generated and compiled; seeded boundary values and values decoded from schema-derived documents round-tripped through the real MarshalJSON/UnmarshalJSON; validity, duplicate keys and value equality judged by TLC (Trace_Codec)",
+  text="Schema universe: all scalars and arrays of scalars x nullable, objects with <= 2 properties x required x nullable x additionalProperties {silent,true,string,int64}, allOf of two members in every inline/$ref order, oneOf with/without discriminator, nested objects and arrays (932 schemas; quick samples two-property objects). For each building schema 10 (thorough 60) seeded boundary-biased values plus every value obtained from a schema-derived document: json.Marshal -> json.Valid, no duplicate keys at any depth -> json.Unmarshal -> projected value equal to the original.",
+  note=CODEC_NOTE)
+CHECKS["C07"] = dict(
+  level="model_checking", design="§4 C07, spec/Codec.tla (Valid, Match), spec/Trace_Codec.tla",
+  technique="independent validator written in TLA+ (Codec.Valid) and the value/encoding correspondence (Codec.Match) evaluated by TLC on the token tree of the real bytes",
+  text="Same executions as C06; the judge is not goag's decoder: Valid(schema, tree) checks required present, null only where nullable, names exactly the declared ones (or map keys), JSON types and formats (int32 range, RFC 3339), oneOf exactly one variant; Match additionally checks unset optionals omitted, null nullables written as null, allOf merged into one object and map entries under their own keys with the value's own leaf tokens.",
+  note=CODEC_NOTE + " Response bodies and client request bodies on the wire are judged with the same operators by the C02/C09/C10 checks.")
+CHECKS["C08"] = dict(
+  level="model_checking", design="§4 C08, spec/Codec.tla (JEquiv), spec/Trace_Codec.tla",
+  technique="documents and single-fault mutants generated from the schema (not from goag's encoder); real UnmarshalJSON + re-encoding; losslessness (Codec.JEquiv) and strictness judged by TLC (Trace_Codec)",
+  text="For every building schema of the C06 universe: seeded valid documents (optional subsets, null where allowed, additional properties, undeclared extras on silent schemas, discriminator set to the variant's tag) must decode and re-encode to an equivalent document (key order ignored, extras kept under explicit additionalProperties); every mutant that drops one required key or swaps one declared property to another JSON type must be rejected with an error naming the property.",
+  note=CODEC_NOTE + " null for a non-nullable property is not judged; type swaps are between distinct JSON types only.")
+
 NOT_YET = {}
 
 def main():
